@@ -82,9 +82,10 @@ class Shape:
     pathform: str = "abs"  # 'abs' | 'rel' (relative to cwd)
     outdir: str = "abs"  # 'abs' | 'rel' explicit output directory | 'default' (none given)
     quiet: bool = False  # -q
+    stale: str = ""  # '' | 'long' | 'short': the output directory already holds files with the names about to be written
 
     def text(self) -> str:
-        return f"PYTHONHASHSEED={self.hashseed} cwd={self.cwd} path={self.pathform} outdir={self.outdir}{' -q' if self.quiet else ''}"
+        return f"PYTHONHASHSEED={self.hashseed} cwd={self.cwd} path={self.pathform} outdir={self.outdir}{' -q' if self.quiet else ''}{' stale-' + self.stale + '-outputs-present' if self.stale else ''}"
 
 
 CANONICAL = Shape()
@@ -121,6 +122,14 @@ def run_fresh(texts: Dict[str, str], main: str, opts: Opts, shape: Shape = CANON
     args += opts.cli_flags()
     if shape.quiet:
         args.append("-q")
+    if shape.stale:
+        # an output directory that was used before: files of the names about to be written exist already
+        # (longer resp. shorter than any real output); they must be REPLACED, whatever they held
+        where = os.path.dirname(os.path.join(src, main)) if shape.outdir == "default" else out
+        base = os.path.splitext(os.path.basename(main))[0] + "_bp"
+        for ext in {"c": (".h", ".c"), "go": (".go",), "py": (".py",)}[opts.lang]:
+            with open(os.path.join(where, base + ext), "w") as fh:
+                fh.write("// stale output of an earlier compilation\n" * (40000 if shape.stale == "long" else 1))
     r = bpapi.cli(args, cwd=cwd, env_extra={"PYTHONHASHSEED": shape.hashseed})
     res = CliRun(r.returncode, r.stderr, outputs(root), args, root)
     if not keep:
